@@ -278,3 +278,36 @@ Proof.
   subst ts. destruct total as [t|]; cbn [option_map] in Htot; [|exact I].
   apply N.mul_cancel_l in Htot; [exact Htot|lia].
 Qed.
+
+(* C08 "a trailing partial PCM frame is dropped" for the byte writer, by equality of runs: bytes that do not complete a
+   PCM frame (also when they end in the middle of a sample) change nothing in the finished file *)
+Lemma decoded_length en n (l : list N) : (0 < n)%nat ->
+  (n * length (decoded en n l) <= length l)%nat /\ (length l < n * length (decoded en n l) + n)%nat.
+Proof.
+  intros Hn. unfold decoded. rewrite map_length. destruct (drain n l) as [cs r] eqn:D. cbn [fst].
+  pose proof (drain_length n Hn l cs r D) as L. pose proof (drain_spec n Hn l cs r D) as (_ & _ & Lr). lia.
+Qed.
+
+Theorem byte_partial_dropped : forall enc_block md5 p en o rate bps ch total w (x partial : list N) k,
+  options_wf o -> 1 <= bps -> 1 <= ch ->
+  byte_new p en [] o rate bps ch total = Ok w -> Forall byte_ok x -> Forall byte_ok partial ->
+  let nb := N.to_nat (bytes_per_sample_of bps) in
+  length x = (nb * (N.to_nat ch * k))%nat -> (length partial < nb * N.to_nat ch)%nat ->
+  byte_run enc_block md5 p w [x ++ partial] = byte_run enc_block md5 p w [x].
+Proof.
+  intros enc_block md5 p en o rate bps ch total w x partial k Hwf Hb1 Hc1 Hnew Hx Hp nb Lx Lp.
+  assert (Hnb : (0 < nb)%nat).
+  { unfold nb. assert (1 <= bytes_per_sample_of bps) by (unfold bytes_per_sample_of; apply N.div_le_lower_bound; lia). lia. }
+  destruct (byte_new_sample_new p en o rate bps ch total w Hnew) as (ts & ws & Hs & Et).
+  assert (Hxp : Forall byte_ok (concat [x ++ partial])) by (cbn [concat]; rewrite app_nil_r; apply Forall_app; auto).
+  assert (Hx1 : Forall byte_ok (concat [x])) by (cbn [concat]; rewrite app_nil_r; exact Hx).
+  rewrite (byte_writer_is_sample_writer enc_block md5 p en o rate bps ch total ts w ws [x ++ partial] Hwf Hnew Hs Et Hxp).
+  rewrite (byte_writer_is_sample_writer enc_block md5 p en o rate bps ch total ts w ws [x] Hwf Hnew Hs Et Hx1).
+  cbn [concat]. rewrite !app_nil_r. fold nb.
+  rewrite (decoded_app en nb x partial (N.to_nat ch * k) Hnb Lx).
+  destruct (decoded_length en nb x Hnb) as [A1 A2]. destruct (decoded_length en nb partial Hnb) as [B1 B2].
+  apply (FlacWriters.Props_C08.C08_partial_dropped_sample enc_block md5 p [] o rate bps ch ts ws _ _ Hwf Hs).
+  - assert (E : length (decoded en nb x) = (N.to_nat ch * k)%nat) by nia.
+    rewrite E, Nat2N.inj_mul, N2Nat.id, N.mul_comm. apply N.mod_mul. lia.
+  - assert (E : (length (decoded en nb partial) < N.to_nat ch)%nat) by nia. lia.
+Qed.
